@@ -55,7 +55,7 @@ def gen_case(rng, idx):
     # ---- attribute
     attrs = []; name = 'f_inst'; level = 'info'; target = None
     if rng.random() < 0.3: name = rng.choice(['custom', 'my span', 'op.name']); attrs.append('name = "%s"' % name)
-    if rng.random() < 0.4: level = rng.choice(list(LVL)); attrs.append('level = "%s"' % level)
+    if rng.random() < 0.5: level = rng.choice(list(LVL)); attrs.append('level = "%s"' % level)
     if rng.random() < 0.3: target = rng.choice(['tgt', 'app::x']); attrs.append('target = "%s"' % target)
     parent_root = rng.random() < 0.2
     if parent_root: attrs.append('parent = None')
@@ -104,6 +104,11 @@ def gen_case(rng, idx):
         mode = rng.choice(['', 'Display', 'Debug']); lv = rng.choice([None, None, 'info'])
         inner = ', '.join(x for x in [mode, ('level = "%s"' % lv) if lv else ''] if x)
         attrs.append('err(%s)' % inner if inner else 'err'); err = (mode or 'Display', lv)
+    # the attribute's arguments in any order (what they mean does not depend on it)
+    if rng.random() < 0.5: rng.shuffle(attrs)
+    # (a `ret` that takes its level from the span, written BEFORE the span's level: the dependency runs against the order)
+    if ret is not None and ret[1] is None and level != 'info' and rng.random() < 0.7:
+        attrs.sort(key=lambda a: 0 if a.startswith('ret') else 1)
     yields = rng.choice([0, 1, 2]) if is_async else 0
     # ---- body
     body = ['fx("start");', 'tracing::info!("body");']
